@@ -167,6 +167,9 @@ M = [
       old="        NonZero::new(*rhs).and_then(|rhs| self.checked_div_rem_floor(&rhs).0.into())",
       new="        NonZero::new(*rhs).map(|rhs| self.checked_div_rem_floor(&rhs).0.unwrap_or(Self::MIN))",
       expect="c14.gate|int::div::<impl int::Int<_>>::checked_div_floor"),
+ dict(name="boxed_mul_by_value_widening", prop="C15", file="src/uint/boxed/mul.rs",
+      old="    fn mul(self, rhs: BoxedUint) -> Self {\n        Mul::mul(&self, &rhs)", new="    fn mul(self, rhs: BoxedUint) -> Self {\n        BoxedUint::mul(&self, &rhs)",
+      expect="c15.forest|Mul|uint::boxed::BoxedUint|uint::boxed::BoxedUint"),
  # --- C19
  dict(name="random_mod_core_polarity", prop="C19", file="src/uint/rand.rs",
       old="        if n.ct_lt(modulus).into() {\n            break;", new="        if !bool::from(n.ct_lt(modulus)) {\n            break;",
